@@ -19,6 +19,7 @@ func init() {
 	registerScenario("D_recv_unordered_guard", dRecvUnorderedGuard)
 	registerScenario("D_fwd_unknown_stream", dFwdUnknownStream)
 	registerScenario("D_idata_fragment_after_forward", dIDataFragmentAfterForward)
+	registerScenario("D_pr_after_peer_reset", dPRAfterPeerReset)
 }
 
 func directedConfig(w *world, interleaving bool) *runConfig {
@@ -228,4 +229,42 @@ func dIDataFragmentAfterForward(w *world) {
 		return planNone
 	}
 	runXfer(w, x, mon, false, true)
+}
+
+// dPRAfterPeerReset: the peer resets its direction of a stream id; this side keeps
+// sending on the same id with a retransmission limit of 0; a packet is lost.
+func dPRAfterPeerReset(w *world) {
+	x, mon, ok := directedStart(w, directedConfig(w, false))
+	if !ok {
+		return
+	}
+	dA := &xferDir{sid: 7, from: 0, unordered: true, relType: ReliabilityTypeRexmit, relVal: 0, sizes: []int{10, 600, 10, 10}, preopen: true,
+		gaps: []time.Duration{0, 2 * time.Second, 0, 0}}
+	dB := &xferDir{sid: 7, from: 1, unordered: true, relType: ReliabilityTypeReliable, sizes: []int{10}, preopen: true}
+	x.dirs = []*xferDir{dA, dB}
+	// B closes its direction once it has written
+	w.sim.spawnClient("closer.B.7", "B", func() {
+		for !dB.writerDone {
+			h := vsimBlocking("client.sleep")
+			time.Sleep(10 * time.Millisecond)
+			vsimWoke(h)
+		}
+		_ = dB.tx.s.Close()
+		w.apiEvent(w.eps[1], "close", "sid=7")
+	})
+	// lose the 600-byte message of A once (it is written 2 s later, after the reset arrived)
+	dropped := false
+	w.net.filter = func(dir int, idx int, p *wirePacket) planAction {
+		if dir == 0 && !dropped {
+			for _, c := range p.chunks {
+				if c.isData() && len(c.userData) == 600 {
+					dropped = true
+					w.probe("directed-drop")
+					return planDrop
+				}
+			}
+		}
+		return planNone
+	}
+	runXfer(w, x, mon, false, false)
 }
